@@ -452,30 +452,55 @@ def real_pool_check(ch):
 
 
 def post_search(tier, verif_seed):
-    """Runs in the parent after the search: the real-pool cross-check."""
+    """Runs in the parent after the search: the real-pool cross-check, in a
+    child process with a timeout (a hang of the real pool is a note, not a verdict)."""
     import json
     import os
-    import time
-    from . import core
+    import subprocess
 
     n = 8 if tier == "quick" else 200
-    t0 = time.time()
-    res = {"ok": 0, "mismatch": 0, "skipped": 0}
+    budget = 60 if tier == "quick" else 600
+    root = os.path.dirname(os.path.dirname(os.path.abspath(__file__)))
+    res = {"ok": 0, "mismatch": 0, "skipped": 0, "planned": n, "note": ""}
     viol = []
-    for i in range(n):
-        if time.time() - t0 > (30 if tier == "quick" else 300):
-            break
-        ch = core.Choices(seed=core.run_seed(verif_seed, "C09-real", i))
-        sut.reset_module_state()
-        status, detail = real_pool_check(ch)
-        res[status] += 1
-        if status == "mismatch":
-            root = os.environ.get("VERIF_OUT") or os.path.dirname(os.path.dirname(os.path.abspath(__file__)))
-            os.makedirs(os.path.join(root, "replays"), exist_ok=True)
-            path = os.path.join(root, "replays", f"C09-realpool-{verif_seed}-{i}.json")
+    env = dict(os.environ, PYTHONPATH=root)
+    out = ""
+    try:
+        p = subprocess.run([sys.executable, "-m", "verifsim.realpool", str(verif_seed), "0", str(n)], capture_output=True, text=True, timeout=budget, cwd=root, env=env)
+        out = p.stdout
+        if p.returncode != 0:
+            res["note"] = "real-pool child exited with status %d: %s" % (p.returncode, p.stderr[-300:])
+    except subprocess.TimeoutExpired as e:
+        out = e.stdout.decode() if isinstance(e.stdout, bytes) else (e.stdout or "")
+        res["note"] = f"real-pool child did not finish within {budget} s (hang or slow machine); completed calls are counted, the rest skipped"
+    final = [ln for ln in out.splitlines() if ln.startswith("REALPOOL ")]
+    mms = [json.loads(ln[len("REALPOOL-MISMATCH "):]) for ln in out.splitlines() if ln.startswith("REALPOOL-MISMATCH ")]
+    if final or mms:
+        if final:
+            got = json.loads(final[-1][9:])
+            for k in ("ok", "mismatch", "skipped"):
+                res[k] = got[k]
+        else:
+            for ln in out.splitlines():
+                if ln.startswith("REALPOOL-PROGRESS"):
+                    st_ = ln.split()[-1]
+                    if st_ in res:
+                        res[st_] += 1
+            res["skipped"] += n - res["ok"] - res["mismatch"] - res["skipped"]
+        for mm in mms:
+            outdir = os.environ.get("VERIF_OUT") or root
+            os.makedirs(os.path.join(outdir, "replays"), exist_ok=True)
+            path = os.path.join(outdir, "replays", f"C09-realpool-{verif_seed}-{mm['index']}.json")
             with open(path, "w") as f:
-                json.dump({"property": "C09", "deterministic": False, "choices": ch.log, "verif_seed": verif_seed, "index": i, **core._jsonable(detail)}, f, indent=1)
+                json.dump({"property": "C09", "deterministic": False, "choices": mm["choices"], "verif_seed": verif_seed, "index": mm["index"], **mm["detail"]}, f, indent=1)
             viol.append(path)
+    else:
+        for ln in out.splitlines():
+            if ln.startswith("REALPOOL-PROGRESS"):
+                st_ = ln.split()[-1]
+                if st_ in res:
+                    res[st_] += 1
+        res["skipped"] += n - res["ok"] - res["mismatch"] - res["skipped"]
     return {"real_pool_crosscheck": res, "violations": viol}
 
 
